@@ -130,40 +130,44 @@ Theorem C19_float_assumptions_consistent : float_text_ok toy_fl.
 Proof. exact toy_float_text_ok. Qed.
 Print Assumptions C19_float_assumptions_consistent.
 
-(** ** outside the vocabulary the round trip fails (faithful model, confirmed on the code) *)
-Theorem C19_special_float_refuted : forall (fl : float_ops) (itx : Z -> Z -> Z -> str),
-  exists db, load_sql_dump fl (dump_text fl itx (lit "x") db) = OErr
-             /\ db = one_table [col "A" TDouble true] [[VDouble 9221120237041090560]; [VDouble 9218868437227405312]].
-Proof. exact special_float_refuted_thm. Qed.
-Print Assumptions C19_special_float_refuted.
-
-Theorem C19_smallint_refuted : forall (fl : float_ops) (itx : Z -> Z -> Z -> str),
-  exists db, load_sql_dump fl (dump_text fl itx (lit "x") db) = OErr
-             /\ db = one_table [col "A" TSmallint true] [[VSmallint 5]].
-Proof. exact smallint_refuted_thm. Qed.
-Print Assumptions C19_smallint_refuted.
-
-Theorem C19_numeric_whole_refuted : forall (fl : float_ops) (b i p s : Z) (rest : list tok),
-  parse_i64 (show_f64 fl b) = Some i ->
-  obind (parse_value fl (TNum (show_f64 fl b) :: rest)) (fun '(pv, _) => coerce_value fl pv (TNumeric p s)) = OErr.
-Proof. exact numeric_whole_rejected_thm. Qed.
-Print Assumptions C19_numeric_whole_refuted.
-
-(** the former CHAR counter-example reloads as itself since the storage layer counts characters *)
-Theorem C19_char_padded_non_ascii_roundtrip : forall (fl : float_ops) (itx : Z -> Z -> Z -> str),
-  let db := one_table [col "A" (TChar 4) true] [[VCharacter [233; 32; 32; 32]]] in
+(** ** classes repaired in the code: the former counter-examples reload as themselves *)
+Theorem C19_special_float_roundtrip : forall (fl : float_ops) (itx : Z -> Z -> Z -> str),
+  let db := one_table [col "A" TDouble true; col "B" TReal true]
+              [[VDouble 9221120237041090560; VReal 2143289344]; [VDouble 9218868437227405312; VReal 4286578688];
+               [VDouble 18442240474082181120; VReal 2139095040]] in
   db_ok db = true /\ load_sql_dump fl (dump_text fl itx (lit "x") db) = OOk db.
-Proof. exact char_padded_non_ascii_roundtrip_thm. Qed.
-Print Assumptions C19_char_padded_non_ascii_roundtrip.
+Proof. exact special_float_roundtrip_thm. Qed.
+Print Assumptions C19_special_float_roundtrip.
 
-(** coerce_value still cuts the literal by bytes: a non-blank character beyond byte n is lost *)
-Theorem C19_char_non_ascii_refuted : forall (fl : float_ops) (itx : Z -> Z -> Z -> str),
+(** a NaN with another payload / sign comes back as the canonical NaN (equal as SqlValue) *)
+Theorem C19_nan_payload_canonicalised : forall (fl : float_ops) (itx : Z -> Z -> Z -> str),
   exists db db', load_sql_dump fl (dump_text fl itx (lit "x") db) = OOk db'
-                 /\ db = one_table [col "A" (TChar 3) true] [[VCharacter [97; 8364; 32]]]
-                 /\ db' = one_table [col "A" (TChar 3) true] [[VCharacter [97; 32; 32]]].
-Proof. exact char_non_ascii_refuted_thm. Qed.
-Print Assumptions C19_char_non_ascii_refuted.
+                 /\ db = one_table [col "A" TDouble true] [[VDouble 9221120237041090561]; [VDouble 18444492273895866368]]
+                 /\ db' = one_table [col "A" TDouble true] [[VDouble 9221120237041090560]; [VDouble 9221120237041090560]].
+Proof. exact nan_payload_canonicalised_thm. Qed.
+Print Assumptions C19_nan_payload_canonicalised.
 
+Theorem C19_smallint_roundtrip : forall (fl : float_ops) (itx : Z -> Z -> Z -> str),
+  let db := one_table [col "A" TSmallint true] [[VSmallint 5]; [VSmallint 32767]; [VSmallint 0]] in
+  db_ok db = true /\ load_sql_dump fl (dump_text fl itx (lit "x") db) = OOk db.
+Proof. exact smallint_roundtrip_thm. Qed.
+Print Assumptions C19_smallint_roundtrip.
+
+Theorem C19_numeric_whole_roundtrip : forall (fl : float_ops), float_text_ok fl ->
+  forall (b i p s : Z) (rest : list tok),
+  finite_pos 64 b = true -> parse_i64 (show_f64 fl b) = Some i ->
+  obind (parse_value fl (TNum (show_f64 fl b) :: rest)) (fun '(pv, _) => coerce_value fl pv (TNumeric p s)) = OOk (VNumeric b).
+Proof. exact numeric_whole_roundtrip_thm. Qed.
+Print Assumptions C19_numeric_whole_roundtrip.
+
+Theorem C19_char_non_ascii_roundtrip : forall (fl : float_ops) (itx : Z -> Z -> Z -> str),
+  let db := one_table [col "A" (TChar 3) true; col "B" (TChar 4) true]
+              [[VCharacter [97; 8364; 32]; VCharacter [233; 32; 32; 32]]; [VCharacter [128512; 32; 32]; VCharacter [233; 233; 233; 233]]] in
+  db_ok db = true /\ load_sql_dump fl (dump_text fl itx (lit "x") db) = OOk db.
+Proof. exact char_non_ascii_roundtrip_thm. Qed.
+Print Assumptions C19_char_non_ascii_roundtrip.
+
+(** ** what still fails (faithful model, confirmed on the code): strings that break the splitter *)
 Theorem C19_backslash_refuted : forall (fl : float_ops) (itx : Z -> Z -> Z -> str),
   exists db db', load_sql_dump fl (dump_text fl itx (lit "x") db) = OOk db'
                  /\ db = one_table [col "A" (TVarchar None) true] [[VVarchar [97; 92]]; [VVarchar [98]]]
